@@ -60,6 +60,10 @@ def extract(config="default", repo=REPO, verbose=True):
     fcntl.flock(lock, fcntl.LOCK_EX)
     try:
         if all(os.path.exists(os.path.join(dest, c + ".json")) for c in CRATES):
+            try:
+                os.utime(dest, None)
+            except OSError:
+                pass
             return dest
         t0 = time.time()
         tgt = tempfile.mkdtemp(prefix="zkv-target-")
@@ -102,7 +106,7 @@ def extract(config="default", repo=REPO, verbose=True):
         lock.close()
 
 
-def _prune(keep, limit=6):
+def _prune(keep, limit=16):
     ents = []
     for n in os.listdir(CACHE):
         p = os.path.join(CACHE, n)
